@@ -113,11 +113,15 @@ EmitVectors ==
 
 Init == l = 1 /\ (Mode = "check" => EmitVectors)
 
+(* what the property fixes is the class of the status (a result, or a refusal for a client error), not the number: *)
+(* Outcome names the numbers the pinned code answers with, the comparison is by class                              *)
+Class(n) == IF n >= 200 /\ n <= 299 THEN 2 ELSE IF n >= 400 /\ n <= 499 THEN 4 ELSE n
+
 Judge ==
   LET o == Rec[l]
       r == [m |-> o.m, p |-> o.p, q |-> o.q, acc |-> o.acc, body |-> o.body]
       want == Outcome(r, o.exists)
-      ok == /\ o.status = want.st
+      ok == /\ Class(o.status) = Class(want.st)
             /\ o.eff = want.eff
             /\ (want.eff = "append" => o.topic = want.topic /\ o.inC = want.inC)
             \* the rendering asked for (only GET / has two)
